@@ -29,6 +29,7 @@ def gen(rng, tier):
         gs.append(G.random_cfg(rng, rng.randint(1, 4), rng.randint(1, 2), rng.randint(1, 7), maxlen=rng.choice([2, 3, 4]), varnames=rng.choice([None, None, ['S', 'A', 'AB', 'B', 'BB']])))
     for _ in range(300 if quick else 4000):
         gs.append(G.random_cnf(rng, rng.randint(2, 5), 2, rng.randint(2, 9), names=rng.choice([None, None, ['S', 'A', 'AB', 'B', 'BB'], ['S', 'X', 'XY', 'Y', 'YX']])))
+    gs += [G.nullable_chain_cfg(rng) for _ in range(25 if quick else 500)]
     cases = [{'G': g, 'ws': ws} for g in gs]
     # call sequences in one process: a grammar is queried, then a sibling with the SAME rules and another start variable
     # (a new object), then the first object again after its start variable was changed in place
